@@ -173,6 +173,18 @@ Fixpoint walk (fuel : nat) (h : heap) (cur : option nat) : list nat :=
 Definition walk_tree (h : heap) (t : tree) : list nat :=
   walk (S (length (ids V t))) h (fb h (tid V t)).
 
+(* __getstate__ of object n as the code computes it: `next` and `firstbucket`
+   are fields that are READ (Persist.getstate computes them from the tree) *)
+Definition pgetstate (h : heap) (stored : list nat) (n : tree) : record V :=
+  match n with
+  | Leaf i items => RLeaf items (nx h i)
+  | Node _ [] => REmpty
+  | Node i [(_, Leaf l items)] =>
+    if mem l stored then RNode [(0, l)] (fb h i)
+    else REmbedded items (nx h l)
+  | Node i kids => RNode (map (fun sc => (fst sc, tid V (snd sc))) kids) (fb h i)
+  end.
+
 End Chain.
 
 (* ================= a run of the primitive writes ================= *)
